@@ -911,6 +911,51 @@ fn main() {
     }
     drop(hj);
 
+    // ------------------------------------------------- 4b. structured authorities
+    // Authorities that some plausible normalisation would identify (default
+    // port of the scheme, trailing dot, www., percent-escapes, bracketed and
+    // dotted addresses, leading zeros in the port) but that the property keeps
+    // apart: it compares scheme and authority case-insensitively and nothing else.
+    {
+        let auths: Vec<&str> = vec![
+            "h", "H", "h.", "h.x", "H.X", "www.h", "h:873", "H:873", "h:443", "H:443", "h:80", "h:8873", "h:0873", "h:87", "h:", "h:873:873",
+            "[::1]", "[::1]:873", "[::1]:443", "127.0.0.1", "127.0.0.1:873", "127.0.0.1:443", "127.1", "%68", "h%2e", "h%2E", "u@h", "@h", "h@873", "xn--h", "h-", "h_",
+        ];
+        let r_tails = ["/m/", "/m/a", "/m/a/", "/m/a/b", "/M/a", "/m"];
+        let h_tails = ["", "/", "/a", "/a/", "/a/b", "/A"];
+        let mut rt: Vec<Vec<u8>> = Vec::new(); let mut ht: Vec<Vec<u8>> = Vec::new();
+        let (mut r_off, mut h_off) = (0u64, 0u64);
+        for a in &auths {
+            for sch in ["rsync://", "RSYNC://", "rSync://"] { for t in r_tails {
+                let text = format!("{sch}{a}{t}").into_bytes();
+                match (Rsync::from_slice(&text).is_ok(), model_rsync(&text).is_ok()) { (true, true) => rt.push(text), (false, false) => r_off += 1,
+                    (lib, _) => ctx.fail("C12.rsync.authority_forms.accept", s(&text), format!("library accepts: {lib}, the documented grammar: {}", !lib)) }
+            } }
+            for sch in ["https://", "HTTPS://"] { for t in h_tails {
+                let text = format!("{sch}{a}{t}").into_bytes();
+                match (Https::from_slice(&text).is_ok(), model_https(&text).is_ok()) { (true, true) => ht.push(text), (false, false) => h_off += 1,
+                    (lib, _) => ctx.fail("C12.https.authority_forms.accept", s(&text), format!("library accepts: {lib}, the documented grammar: {}", !lib)) }
+            } }
+        }
+        let short_args = all_strings(&SIGMA, 2);
+        let ru = mk_ru(&rt);
+        let sp = ctx.space("rsync.authority_forms",
+            "rsync URIs over 3 scheme spellings x 32 structured authorities (host in two cases, trailing dot, www., the default ports of rsync and https, other ports, leading zero, empty and doubled port, bracketed and dotted addresses with and without ports, percent-escapes in two cases, userinfo shapes, punycode-like and hyphen/underscore names) x 6 module/path tails: ALL ordered pairs (==, hash under three hashers, symmetry, relative_to, is_parent_of against the text model: authorities are the same only if they are equal ignoring ASCII case) and joins with every argument of <= 2 symbols; non-trivial = as in rsync.pairs / rsync.join");
+        rsync_pairs(&ctx, &sp, &ru);
+        rsync_joins(&ctx, &sp, &ru, &short_args);
+        sp.set("uris", json!(ru.len())); sp.set("not_accepted_by_library_and_grammar", json!(r_off));
+        sp.sample_str(|| "rsync://h:873/m/a vs rsync://h/m/ : not equal, relative_to None, not parent".into());
+        sp.done(true, &format!("all {}^2 ordered pairs of the accepted URIs over 32 authorities x 3 schemes x 6 tails; joins with all arguments of length <= 2", ru.len())); lap(&t0, &sp.name);
+        let hu = mk_hu(&ht);
+        let sp = ctx.space("https.authority_forms",
+            "https URIs over 2 scheme spellings x the same 32 structured authorities x 6 path tails: ALL ordered pairs (==, hash, symmetry, eq_authority against the text model) and joins with every argument of <= 2 symbols; non-trivial = as in https.pairs / https.join");
+        https_pairs(&ctx, &sp, &hu);
+        https_joins(&ctx, &sp, &hu, &short_args);
+        sp.set("uris", json!(hu.len())); sp.set("not_accepted_by_library_and_grammar", json!(h_off));
+        sp.sample_str(|| "https://h:443/a vs https://h/a : not equal, different authority".into());
+        sp.done(true, &format!("all {}^2 ordered pairs of the accepted URIs over 32 authorities x 2 schemes x 6 tails; joins with all arguments of length <= 2", hu.len())); lap(&t0, &sp.name);
+    }
+
     // --------------------------------------------------------------- 5. triples
     // A denser domain: 2 scheme spellings x tails over {a, A, /}, so that
     // equal-but-differently-spelled URIs and parent chains of depth >= 3 occur.
